@@ -291,3 +291,23 @@ def parse_state_label(label):
         k, _, v = p.partition(' = ')
         st[k.strip()] = parse_tla_value(v)
     return st
+
+
+def simulate_behaviours(module, cfg, num, depth, seed=0, timeout=600, workers=1):
+    """Run tlc -simulate and return a list of behaviours, each a list of (action name, state dict)."""
+    d = tempfile.mkdtemp(prefix='tlcsim_')
+    try:
+        # num is per worker
+        r = run(module, cfg, workers=workers, timeout=timeout, simulate='file=%s/tr,num=%d' % (d, num), depth=depth, seed=seed)
+        out = []
+        for fn in sorted(os.listdir(d)):
+            with open(os.path.join(d, fn)) as fh:
+                txt = fh.read()
+            beh = []
+            for m in re.finditer(r'\\\* <(\w+) line[^\n]*>\nSTATE_\d+ == \n(.*?)(?=\n\n\n|\n=+\n|\Z)', txt, re.S):
+                beh.append((m.group(1), parse_state_label(m.group(2))))
+            if beh:
+                out.append(beh)
+        return out, r
+    finally:
+        shutil.rmtree(d, ignore_errors=True)
